@@ -337,7 +337,10 @@ pub fn sweep_lists() -> Outcome {
     let a = |s: &str| IpAddr::from_str(s).unwrap();
     cfg.hostaddr = [None, Some(a("10.9.9.9"))][choose_free(2)];
     cfg.hostaddrs = [None, Some(vec![]), Some(vec![a("10.7.7.7"), a("::1")])][choose_free(3)].clone();
-    cfg.port = [None, Some(5999u16)][choose_free(2)];
+    // an explicit port is an explicit port, also when it is the default one
+    // (thorough: or zero)
+    let th = THOROUGH.load(std::sync::atomic::Ordering::Relaxed);
+    cfg.port = [None, Some(5999u16), Some(5432), Some(0)][choose_free(if th { 4 } else { 3 })];
     cfg.ports = [None, Some(vec![]), Some(vec![5997u16, 5998])][choose_free(3)].clone();
     trace!("{:?}", cfg);
     explorer::count_step();
